@@ -6,7 +6,7 @@ Extraction Language OCaml.
 Separate Extraction
   Text.len8s Text.len16s Text.crlf_wf Text.split_at8 Text.utf16
   Position.position_to_utf8 Position.utf8_to_position Position.utf8_range_to_position
-  Position.utf8_to_char_index Position.pos_spec Position.select16
+  Position.utf8_to_char_index Position.char_span Position.pos_spec Position.select16
   Unify.unify_all Unify.reduce Unify.unify
   Loader.load Loader.topo_kahn Loader.join
   Merge.into_openapi
